@@ -164,6 +164,9 @@ LeafWhys(c, lf) ==
     IF res.kind = "ok" /\ ~valid THEN "P:C03:password-violates-its-recipe" ELSE "ok",
     IF res.kind = "ok" /\ ~valid THEN "P:C02:a-string-outside-the-recipe-was-returned" ELSE "ok",
     IF res.kind = "ok" /\ res.str # Concat(res.toks, 1) THEN "P:C05:String()-is-not-the-concatenation-of-token-values" ELSE "ok",
+    IF res.kind = "ok" /\ res.as = 1 /\ ~(/\ res.atoms = [k \in DOMAIN SelectSeq(res.toks, LAMBDA t : t.t = 1) |-> SelectSeq(res.toks, LAMBDA t : t.t = 1)[k].v]
+                                          /\ res.seps = [k \in DOMAIN SelectSeq(res.toks, LAMBDA t : t.t = 0) |-> SelectSeq(res.toks, LAMBDA t : t.t = 0)[k].v])
+      THEN "P:C05:Atoms()-or-Separators()-are-not-the-values-of-that-type-in-order" ELSE "ok",
     IF res.kind = "ok" /\ ~SameFloat(res.ent, c.ent) THEN "P:C06:Password.Entropy-differs-from-recipe-Entropy()" ELSE "ok",
     \* the choices of this very run have probability 1/pp (pp = product of the bounds of all its draws) and determine the password
     IF lf.ppc = 1 /\ res.kind = "ok" /\ lf.unann = 0 /\ lf.left = 0 /\ res.ent.k = "fin" /\ lf.pp # <<>> /\ ~EntropyNotAbove(res.ent, lf.pp, 2)
